@@ -967,7 +967,48 @@ def unit_inspect(U):
                      cases, fails, distinct=len(distinct))
 
 
+def unit_gzip_members(U):
+    """Bounded: the gzip-path form for .gz files that hold SEVERAL gzip members (written in several append sessions, made by
+    `cat a.gz b.gz`, one member per line as block-gzip writers do): the same feature sequence, database and inspect() counts
+    as the plain path / string forms, for checklines 0, 1, 10 and beyond the input"""
+    fails, cases = [], 0
+    lines = ["##gff-version 3"] + ["chr%d\tsrc\t%s\t%d\t%d\t.\t+\t.\tID=f%d;Note=n%d" % (1 + i % 2, ("gene", "exon", "CDS")[i % 3], 10 * i + 1, 10 * i + 9, i, i) for i in range(12)]
+    text = "\n".join(lines) + "\n"
+    d = tempfile.mkdtemp(prefix="c13gz_")
+    try:
+        layouts = {"one member": [text], "two sessions": ["\n".join(lines[:7]) + "\n", "\n".join(lines[7:]) + "\n"], "a member per line": [l + "\n" for l in lines],
+                   "three members, the first only a directive": [lines[0] + "\n", "\n".join(lines[1:5]) + "\n", "\n".join(lines[5:]) + "\n"]}
+        plain = os.path.join(d, "plain.gff")
+        open(plain, "w").write(text)
+        for name, chunks in layouts.items():
+            gz = os.path.join(d, "m%d.gff.gz" % len(chunks))
+            with open(gz, "wb") as out:
+                for c in chunks:
+                    out.write(gzip.compress(c.encode()))
+            for cl in ((0, 1, 10, 50) if U.thorough else (1, 10, 50)):
+                cases += 1
+                try:
+                    want = [str(f) for f in gffutils.DataIterator(plain, checklines=cl)]
+                    got = [str(f) for f in gffutils.DataIterator(gz, checklines=cl)]
+                    dbw = gffutils.create_db(plain, ":memory:", checklines=cl)
+                    dbg = gffutils.create_db(gz, ":memory:", checklines=cl)
+                    gw, gg = [str(f) for f in dbw.all_features()], [str(f) for f in dbg.all_features()]
+                    iw = gff_inspect(plain, verbose=False)["feature_count"]
+                    ig = gff_inspect(gz, verbose=False)["feature_count"]
+                except Exception as e:
+                    fails.append({"case": {"layout": name, "checklines": cl}, "expected": "12 features", "observed": "raised %r" % (e,)})
+                    continue
+                if got != want or gg != gw or ig != iw or list(dbg.directives) != list(dbw.directives):
+                    fails.append({"case": {"layout": name, "checklines": cl}, "expected": "%d features through every route" % len(want),
+                                  "observed": {"DataIterator": len(got), "create_db": len(gg), "inspect": ig, "directives": list(dbg.directives)}})
+    finally:
+        shutil.rmtree(d, ignore_errors=True)
+    U.bounded_result("C13.bounded.gzip_members", "a .gz path holding several gzip members gives the same features, database, directives and inspect() counts as the plain file",
+                     "12 features + 1 directive in 4 member layouts x checklines {1, 10, 50} (thorough also 0) x DataIterator / create_db / inspect", cases, fails)
+
+
 UNITS = [
+    ("bounded.gzip_members", unit_gzip_members),
     ("bounded.sequence", unit_sequence),
     ("bounded.create_db", unit_create_db),
     ("bounded.update", unit_update),
